@@ -31,6 +31,33 @@ pub struct Armed {
 }
 
 impl Armed {
+    /// the armed signatures as handed to worker children
+    pub fn to_env(&self) -> String {
+        serde_json::to_string(&json!({"triggers": self.triggers.iter().collect::<Vec<_>>(), "ids": self.ids, "params": self.params})).unwrap_or_default()
+    }
+    pub fn from_env() -> Armed {
+        let mut a = Armed::default();
+        if let Ok(s) = std::env::var("VERIF_ARMED") {
+            if let Ok(v) = serde_json::from_str::<Value>(&s) {
+                for t in v["triggers"].as_array().cloned().unwrap_or_default() {
+                    if let Some(t) = t.as_str() {
+                        a.triggers.insert(t.to_string());
+                    }
+                }
+                for p in v["ids"].as_array().cloned().unwrap_or_default() {
+                    if let (Some(x), Some(y)) = (p[0].as_str(), p[1].as_str()) {
+                        a.ids.push((x.to_string(), y.to_string()));
+                    }
+                }
+                for p in v["params"].as_array().cloned().unwrap_or_default() {
+                    if let Some(x) = p[0].as_str() {
+                        a.params.push((x.to_string(), p[1].clone()));
+                    }
+                }
+            }
+        }
+        a
+    }
     pub fn has(&self, trigger: &str) -> bool {
         self.triggers.contains(trigger)
     }
